@@ -158,6 +158,8 @@ def success_kind(shape):
             return 'ok'
         if sem.is_false(inner):
             return 'refused'
+        if inner[0] == 'agg' and inner[1].endswith('Option') and inner[2] == 'None':
+            return 'none'
         return 'value'
     if shape[0] == 'Err':
         return 'err:%s' % (shape[1] if isinstance(shape[1], str) else '?')
